@@ -46,6 +46,9 @@ def c05_matrix(ctx):
         dict(dev="bar", k=50, steps=7, adaptive=True, dt=2.0 ** -6, dt_max=0.1, probes=2, current=3.0, field=0.0),
         dict(dev="bar", k=5, steps=15, adaptive=True, dt=0.25, dt_max=2.0, probes=2, current=20.0, field=1.0, window=2,
              retries=True),
+        # interplay: thermalisation + time-dependent drives + screening + probes + a save interval that does not divide the run
+        dict(dev="bar", k=4, steps=9, adaptive=True, dt=2.0 ** -6, dt_max=0.1, probes=3, current=4.0, current_ramp=0.08, field=0.4,
+             field_ramp=0.1, skip=3, screening=True),
         # history: second solve() on the same TDGLSolver object (fixed and adaptive step)
         dict(dev="bar", k=3, steps=8, adaptive=False, dt=2.0 ** -6, probes=2, current=2.0, field=0.2, second_solve=True),
         dict(dev="bar", k=2, steps=7, adaptive=True, dt=2.0 ** -6, dt_max=0.1, probes=3, current=3.0, field=0.3, skip=3, second_solve=True),
@@ -88,6 +91,13 @@ def natural_run(tdgl, p, base_tmp=None):
         terminal_psi=p.get("terminal_psi", 0.0), screening_tolerance=p.get("screening_tol", 1e-3),
     )
     currents = devices.balanced_currents(p["dev"], p.get("current", 0.0)) if p.get("current") else None
+    if currents is not None and p.get("current_ramp"):
+        base, T = dict(currents), float(p["current_ramp"])
+        currents = lambda t, base=base, T=T: {name: val * min(1.0, t / T) for name, val in base.items()}   # noqa: E731
+    field = p.get("field", 0.0)
+    if p.get("field_ramp"):
+        from tdgl.sources import ConstantField, LinearRamp
+        field = ConstantField(field, field_units="mT", length_units="um") * LinearRamp(tmin=0, tmax=float(p["field_ramp"]))
     events = []
     st = {"calls": 0, "stage": "thermal" if skip_time > 0 else "sim", "sim_n": 0, "th_n": 0, "applied": 0}
     hashes = {}          # state hash -> content id
@@ -268,7 +278,7 @@ def natural_run(tdgl, p, base_tmp=None):
         DH.__enter__, DH.__exit__, DH.save_time_step = w_enter, w_exit, w_save
         TDGLSolver.update = w_update
         try:
-            solver = TDGLSolver(dev, opts, applied_vector_potential=p.get("field", 0.0), terminal_currents=currents)
+            solver = TDGLSolver(dev, opts, applied_vector_potential=field, terminal_currents=currents)
             if p.get("second_solve"):
                 # history: the observed run is the SECOND solve() on the same solver object; the first one is
                 # discarded (its output lives in its own temporary directory), all observation state is reset
